@@ -1,5 +1,6 @@
 import SafeNet.Proofs.Quote
 import SafeNet.Model.QuoteHist
+import SafeNet.Model.QuoteFetch
 /-!
 # C13 — payment quotes are bound to their signer and to every signed field
 
@@ -415,6 +416,63 @@ example : historicalVerify ⟨0, 5, 5⟩ ⟨10, 4, 5⟩ 100 = false := by decide
 example : historicalVerify ⟨0, 5, 5⟩ ⟨10 * nsPerSec, 15, 5⟩ (20 * nsPerSec) = true := by decide
 example : historicalVerify ⟨0, 5, 5⟩ ⟨10 * nsPerSec, 26, 5⟩ (20 * nsPerSec) = false := by decide
 
+/-! ### Client side: the quotes `Network::get_store_quote_from_network` returns (`Model/QuoteFetch.lean`)
+
+The returned `(peer, quote)` pairs become the `(payee, quote)` entries of a `ProofOfPayment`; which peer the fetch loop
+passes to `check_is_signed_by_claimed_peer` is regenerated from `ant-networking/src/lib.rs` (`Gen/QuoteFetch.lean`). -/
+
+section QuoteFetch
+open SafeNet.Model.QuoteFetch
+
+/-- A returned `(p, quote)` pair: `p` was found, asked (not ignored, not the client itself), answered with a quote, and
+that quote carries `p`'s own key and a valid signature by it — whatever `peer_address` the response names, and whatever
+the other peers answered. In particular a quote signed by another node is never attributed to the responder. -/
+theorem fetched_quote_bound_to_responder (self : Nat) (found ignore : List Nat) (resp : Nat → Resp)
+    (out : List Nat) (h : fetch self found ignore resp = .ok out) (p : Nat) (hp : p ∈ out) :
+    p ∈ found ∧ p ≠ self ∧ p ∉ ignore ∧ ∃ q, resp p = .quote q ∧ signedBy p q.signer p = true := by
+  unfold fetch at h
+  simp only at h
+  split at h
+  · cases h
+  · split at h
+    · cases h
+    · split at h
+      · simp only [Except.ok.injEq] at h; subst h; cases hp
+      · simp only [Except.ok.injEq] at h
+        subst h
+        rw [List.mem_filter, List.mem_filter] at hp
+        obtain ⟨⟨htake, hign⟩, hacc⟩ := hp
+        have hcl := List.mem_of_mem_take htake
+        rw [List.mem_filter] at hcl
+        refine ⟨hcl.1, by simpa using hcl.2, by simpa using hign, ?_⟩
+        cases hr : resp p with
+        | quote q =>
+          refine ⟨q, rfl, ?_⟩
+          simp only [hr, accepts, checkedAgainst, Gen.QuoteFetch.checkedPeer, Bool.and_eq_true] at hacc
+          exact hacc.1
+        | recordExists => simp [hr] at hacc
+        | quoteErr => simp [hr] at hacc
+        | failed => simp [hr] at hacc
+        | unexpected => simp [hr] at hacc
+
+/-- …so a replayed quote (signed by another peer `j ≠ p`) or a garbage signature is never returned for `p`. -/
+theorem replayed_quote_not_attributed (self : Nat) (found ignore : List Nat) (resp : Nat → Resp)
+    (out : List Nat) (h : fetch self found ignore resp = .ok out) (p j : Nat) (q : QuoteResp)
+    (hq : resp p = .quote q) (hs : q.signer = .peer j) (hne : j ≠ p) : p ∉ out := by
+  intro hp
+  obtain ⟨_, _, _, q', hq', hsig⟩ := fetched_quote_bound_to_responder self found ignore resp out h p hp
+  rw [hq] at hq'
+  cases hq'
+  rw [hs] at hsig
+  simp [signedBy] at hsig
+  exact hne hsig
+
+/-- non-vacuity: an honest answer is returned, a replay under the victim's address is not -/
+example : fetch 99 [0, 1, 2, 3, 4] [] (fun p =>
+    if p = 1 then .quote ⟨.peer 3, .peer 3, true⟩ else .quote ⟨.self, .self, true⟩) = .ok [0, 2, 3, 4] := by rfl
+
+end QuoteFetch
+
 end SafeNet.Props.C13
 
 #print axioms SafeNet.Props.C13.bytes_injective
@@ -440,3 +498,5 @@ end SafeNet.Props.C13
 #print axioms SafeNet.Props.C13.history_keeps_newest
 #print axioms SafeNet.Props.C13.subsecond_not_bound_witness
 #print axioms SafeNet.Props.C13.timestamp_not_fully_bound
+#print axioms SafeNet.Props.C13.fetched_quote_bound_to_responder
+#print axioms SafeNet.Props.C13.replayed_quote_not_attributed
